@@ -1218,3 +1218,37 @@ Proof.
   split; [vm_compute; reflexivity|]. split; [vm_compute; reflexivity|]. split; [vm_compute; reflexivity|].
   split; [eexists; vm_compute; reflexivity|vm_compute; reflexivity].
 Qed.
+
+(* ================================================================================================ *)
+(* path (directory) mode: the directory of items of the generated graph                             *)
+(* ================================================================================================ *)
+From Coq Require Import Permutation.
+
+(* items: the clusters / virtual hosts of a container in path mode, as values of their type t in the generated graph.
+   The no-collision premise is explicit; that every document decodes and that the reloaded item keeps its name are
+   premises too (checked on the real code on every run); that the reloaded item prints as the item did is
+   roundtrip_full_cfg. *)
+Theorem path_mode_dir_roundtrip_cfg fuel t (name_of : val -> string) (d : dir) (items : list val) :
+  NoDup (map fst d) ->
+  NoDup (map (fun it => file_name src_max_file_path canon_ops (name_of it)) items) ->
+  ty_ok cfg_structs t = true ->
+  (forall it, In it items ->
+     WF cfg_structs t it /\ fuel_free (encode cfg_structs fuel t it) = true /\
+     exists v', decode cfg_structs fuel t (encode cfg_structs fuel t it) = Some v' /\ name_of v' = name_of it) ->
+  exists l,
+    path_read loader_accepts (decode cfg_structs fuel t)
+      (path_write (fun it => file_name src_max_file_path canon_ops (name_of it)) (encode cfg_structs fuel t) d items) = Some l /\
+    List.length l = List.length items /\
+    forall d', NoDup (map fst d') ->
+      Permutation (path_write (fun it => file_name src_max_file_path canon_ops (name_of it)) (encode cfg_structs fuel t) d' l)
+                  (path_write (fun it => file_name src_max_file_path canon_ops (name_of it)) (encode cfg_structs fuel t) d items).
+Proof.
+  intros Hd Hi Hty Hit.
+  apply (path_redump (fun it => file_name src_max_file_path canon_ops (name_of it)) (encode cfg_structs fuel t)
+                     loader_accepts (decode cfg_structs fuel t) d items Hd Hi).
+  - intros it _. apply loader_accepts_canon.
+  - intros it Hin. destruct (Hit it Hin) as [Hwf [Hff [v' [Hdec Hname]]]]. exists v'.
+    split; [exact Hdec|]. split.
+    + exact (proj1 (roundtrip_full_cfg fuel t it Hwf Hty Hff fuel v' Hdec)).
+    + rewrite Hname. reflexivity.
+Qed.
